@@ -58,6 +58,7 @@ var (
 	repoDir     string
 	workDir     string
 	scratchRepo bool // VERIF_REPO points at a scratch copy (mutation self-test)
+	hookMissing bool // verif_hooks.go did not compile: internal-state invariants not evaluated
 )
 
 func fatalf(code int, format string, a ...interface{}) {
@@ -86,17 +87,35 @@ func buildWorker(race bool) (string, error) {
 		os.WriteFile(filepath.Join(workDir, "go.sum"), sum, 0o644)
 	}
 	name := "vworker"
-	args := []string{"build", "-tags", "verif", "-modfile=" + modfile}
 	if race {
-		args = append(args, "-race")
 		name += "-race"
 	}
 	bin := filepath.Join(workDir, name)
-	args = append(args, "-o", bin, "./worker")
-	cmd := exec.Command("go", args...)
-	cmd.Dir = verifDir
-	cmd.Env = goEnv()
-	out, err := cmd.CombinedOutput()
+	build := func(tags bool) ([]byte, error) {
+		args := []string{"build", "-modfile=" + modfile}
+		if tags {
+			args = append(args, "-tags", "verif")
+		}
+		if race {
+			args = append(args, "-race")
+		}
+		args = append(args, "-o", bin, "./worker")
+		cmd := exec.Command("go", args...)
+		cmd.Dir = verifDir
+		cmd.Env = goEnv()
+		return cmd.CombinedOutput()
+	}
+	out, err := build(true)
+	if err != nil && strings.Contains(string(out), "verif_hooks.go") {
+		// the hook file does not compile against this tree (an internal refactoring renamed what it
+		// walks): fall back to the API-level monitors only and say so
+		if out2, err2 := build(false); err2 == nil {
+			hookMissing = true
+			return bin, nil
+		} else {
+			out = append(out, out2...)
+		}
+	}
 	if err != nil {
 		return "", fmt.Errorf("%v\n%s", err, out)
 	}
@@ -511,6 +530,9 @@ func main() {
 		}
 	}
 	cov["distinct_sets"] = setSizes
+	if hookMissing {
+		inconclusive = append(inconclusive, "the verif-tagged hook file does not compile against this tree: internal-state invariants were not evaluated (the API-level monitors were)")
+	}
 	cov["inconclusive"] = inconclusive
 	var ks []string
 	for s := range knownSeen {
